@@ -614,26 +614,18 @@ class Recfile(object):
         return result, isrows, isslice
 
     def _process_slice(self, arg):
-        start = arg.start
-        stop = arg.stop
         step = arg.step
-
         if step is None:
             step = 1
-        if start is None:
-            start = 0
-        if stop is None:
-            stop = self.nrows
-        elif stop > self.nrows:
-            stop = self.nrows
 
-        if start < 0:
-            start = self.nrows + start
-            if start < 0:
-                raise IndexError("Index out of bounds")
+        if step <= 0:
+            # not supported; rejected by the reader
+            return slice(0, self.nrows, step)
 
-        if stop < 0:
-            stop = self.nrows + stop
+        # python slice semantics, bounds clipped to the file
+        start, stop, step = slice(arg.start, arg.stop, step).indices(
+            self.nrows
+        )
 
         if stop < start:
             # will return an empty struct
@@ -642,21 +634,18 @@ class Recfile(object):
         return slice(start, stop, step)
 
     def _slice2rows(self, start, stop, step=None):
-        if start is None:
-            start = 0
-        if stop is None:
-            stop = self.nrows
         if step is None:
             step = 1
+        if step <= 0:
+            raise ValueError("slice step must be > 0")
 
-        tstart = self._fix_range(start)
-        tstop = self._fix_range(stop)
+        # python slice semantics, bounds clipped to the file
+        tstart, tstop, step = slice(start, stop, step).indices(self.nrows)
+
         # if tstart == 0 and tstop == self.nrows:
         #    # this is faster: if all fields are also requested, then a
         #    # single fread will be done
         #    return None
-        if tstop < tstart:
-            raise ValueError("start is greater than stop in slice")
         return numpy.arange(tstart, tstop, step, dtype="i8")
 
     def _fix_range(self, num, isslice=True):
